@@ -236,15 +236,11 @@ def handle (j : Json) : Json :=
     let excl :=
       (if s'.tclash then ["TextNotGlobal"] else []) ++
       (if ok && (s'.nnil > 0 || s'.nempty > 0) then ["DegenerateTarget"] else []) ++
-      (if ok && s'.nswallow > 0 then ["NullMemberSwallowed"] else []) ++
-      (if s'.stale then ["StaleDocumentCache"] else []) ++
       (if s'.foreign then ["ForeignContext"] else [])
     let branches :=
       (if s'.nback > 0 then ["backtrack"] else []) ++
       (if s'.nnil > 0 then ["unvisit.nil"] else []) ++
       (if s'.nempty > 0 then ["empty.swallowed"] else []) ++
-      (if s'.nswallow > 0 then ["nullMember.swallowed"] else []) ++
-      (if s'.stale then ["cache.hit.fromEarlierLoad"] else []) ++
       (if !ok then ["outcome." ++ outcome] else []) ++ ["entry." ++ ld.entry]
     (s', out ++ [(jobj [("outcome", Json.str outcome), ("refs", groupRefs refs)],
                   jobj [("ok", Json.bool specOK), ("malformed", Json.bool nullMember),
